@@ -647,7 +647,10 @@ func (vc *VC) exitObligations(fn *ssa.Function, fc *FuncContract, args, bind []V
 			vc.assume(res.st, g)
 			untag()
 		}
-		if fc.HasMod {
+		if fc.HasMod && fc.Flags["frame_assumed"] != "" {
+			// the footprint is an ASSUMPTION for this function (listed in the evidence), not a proved frame
+			vc.note("footprint (modifies clause) assumed, not proved, for " + fn.String())
+		} else if fc.HasMod {
 			pre := vc.paramEnv(fn, fc, args, bind, vc.entry, vc.entry)
 			vc.frameObligations(res.st, pre.modTargets(fc.Modifies), suffix)
 		}
